@@ -130,7 +130,7 @@ func (m *bloomRedis) Exec(op Tok) (opOut Tok, obs Tok) {
 		if a[3].I() == 1 {
 			f.InsertString(string(a[2].B))
 		} else {
-			f.Insert(a[2].B)
+			f.Insert(el(a[2].B))
 		}
 		return opOut, TUnit()
 	case blLookup:
@@ -143,7 +143,7 @@ func (m *bloomRedis) Exec(op Tok) (opOut Tok, obs Tok) {
 		if a[3].I() == 1 {
 			return opOut, TBool(f.LookupString(string(a[2].B)))
 		}
-		return opOut, TBool(f.Lookup(a[2].B))
+		return opOut, TBool(f.Lookup(el(a[2].B)))
 	case blParams:
 		f := m.inst[a[1].I()]
 		if f == nil {
